@@ -181,7 +181,12 @@ def dispatch(ctx, d2, vle):
     ps, trunc = run_paths(f.node, decide=decide, max_paths=20000, follow_except=True)
     seen = {}
     for p in ps:
-        specs = tuple(sorted(src(t)[0] for t, taken in p.conds if not isinstance(t, str) and taken and src(t).endswith('_spec')))
+        specs = set()
+        for tmap, taken, test in p.rconds:
+            m_ = re.match(r'^\((\w) is not None\)$', tmap.get(id(test), ''))
+            if m_ and taken:
+                specs.add(m_.group(1))
+        specs = tuple(sorted(specs))
         calls = [e for e in p.events if e.kind == 'call' and re.match(r'^self\.set_', e.target)]
         if p.via_except and not calls and not p.raised:
             seen.setdefault(specs, []).append(('fallback', None, p))
